@@ -48,7 +48,7 @@ fn check_cell(rep: &Report, acc: &mut Acc, enc: &dvb_gse_rust::gse_encap::Encaps
 
 pub fn run(tier: Tier) -> i32 {
     let rep = Report::new("C11", tier);
-    rep.set_rule("the complete transition relation of the fragmentation graph for every PDU length 0..=64 (every context position, every buffer length 0..=p+16 and beyond 4097), the window lattice for large PDUs, first fragments over the size lattice; per-transition partition/progress clauses plus longest-path dynamic programming on the observed graph; distinct = (status, size regime, remaining regime, buffer class)");
+    rep.set_rule("the complete transition relation of the fragmentation graph for every PDU length 0..=64 (every context position, every buffer length 0..=p+16 and beyond 4097), the window lattice for large PDUs, first fragments over the size lattice (encap, and encap_ext with all chains of <= 2 extensions); per-transition partition/progress clauses plus longest-path dynamic programming on the observed graph; distinct = (status, size regime, remaining regime, buffer class)");
     rep.assume("PDU lengths restricted to 0..=65535 (a context cannot legitimately exist for a longer PDU: encap refuses it)");
     rep.assume("sizes between the enumerated windows are represented by the windows");
     small(&rep, tier);
@@ -202,6 +202,51 @@ fn firsts(rep: &Report, _tier: Tier) {
         rep.merge(acc);
     });
     rep.part(json!({"part":"first fragments","pdu_lengths":ps.len(),"labels":4}));
+    // first fragments with header extensions (encap_ext): the context must count exactly the payload carried
+    let ch = crate::props::c06::chains(2);
+    ch.par_iter().for_each(|c| {
+        if rep.over_time() {
+            rep.cap("ext firsts: wall cap");
+            return;
+        }
+        let mut acc = Acc::default();
+        let pt = crate::props::c06::pt_for_chain(c);
+        let ext_wire: usize = c.iter().map(|e| 2 + e.1.len()).sum::<usize>() - if crate::props::c06::is_final_mand(c.last().unwrap().0) { 2 } else { 0 };
+        for &p in &[0usize, 1, 7, 40, 4070, 4090, 4096, 5000, 9000] {
+            let pd = pdu(p, 0);
+            for l in [L6A, Lbl::Bcast] {
+                let hdr = 7 + l.wire_len() + ext_wire;
+                let mut bl: Vec<usize> = vec![hdr.saturating_sub(1), hdr, hdr + 1, hdr + 2, hdr + 7, 4096, 4097, 4098, 4099, 4110, 5000, 8192, 65536, 70000];
+                bl.extend((4 + l.wire_len() + ext_wire + p).saturating_sub(2)..=4 + l.wire_len() + ext_wire + p + 1);
+                for b in uniq(bl) {
+                    let sent = SENTINELS[(p + b) % 2];
+                    let mut buf = vec![sent; b];
+                    let mut enc = build_prior(FastCrc, Prior::Fresh, l);
+                    let out = do_encap_ext(&mut enc, &pd, 0xA7, pt, l, &mut buf, c);
+                    acc.states += 1;
+                    acc.transitions += 1;
+                    acc.calls += 1;
+                    acc.outcome(&format!("encap_ext:{}:{}", out.class(), regime(p, b)));
+                    if let EncOut::Fragmented(..) = out {
+                        acc.compared += 1;
+                        let i = FirstIn { pdu: &pd, frag_id: 0xA7, pt, label: l, b, may_substitute: false, exts: c, mand: None };
+                        let (fails, _) = wf_first(&i, &out, &buf, sent, &FastCrc);
+                        for (cl, txt) in fails {
+                            if !matches!(cl.as_str(), "ctx-count" | "payload" | "frag-id" | "ctx-crc" | "gse-len!=written-2" | "gse-len>4095" | "unparsable") {
+                                continue;
+                            }
+                            let sig = format!("C11|encap_ext|{}|{}", cl, regime(p, b));
+                            rep.violation(&sig, (p * 100_000 + b) as u64, || {
+                                (format!("encap_ext(pdu_len={}, label={}, buffer={}, extensions={:?}) returned {:?}: {}", p, l.short(), b, c.iter().map(|e| e.0).collect::<Vec<_>>(), out, txt), json!({"call":"encap_ext","pdu_len":p,"pdu_pattern":0,"frag_id":0xA7,"pt":pt,"label":l.short(),"buffer_len":b,"prior":"Fresh","extensions":c.iter().map(|e| json!([e.0, hex(&e.1)])).collect::<Vec<_>>(),"result":format!("{:?}",out)}))
+                            });
+                        }
+                    }
+                }
+            }
+        }
+        rep.merge(acc);
+    });
+    rep.part(json!({"part":"first fragments with extensions (encap_ext)","chains":ch.len()}));
 }
 
 /// thorough: one dimension closed completely at a time
